@@ -146,6 +146,18 @@ let handle_num (toks : string list) : string =
   | (v, []) -> render v
   | (_, _) -> "bad:trailing"
 
+(* ---- parser layer ---- *)
+let dotted (l : n list) : string = String.concat "." (List.map (fun c -> ZZ.to_string (zz_of_n c)) l)
+let render_ucode (u : ucode) : string =
+  Printf.sprintf "%s,%s,%s,%s,%s,%s,%s,%s"
+    (ZZ.to_string (zz_of_n u.ty)) (ZZ.to_string (zz_of_n u.hc)) (ZZ.to_string (zz_of_n u.dc))
+    (ZZ.to_string (zz_of_n (fst u.loc))) (ZZ.to_string (zz_of_n (snd u.loc)))
+    (dotted (area_debug u.ar)) (dotted (area_display u.ar)) (dotted u.raw)
+let handle_parse (pre : bool) (toks : string list) : string =
+  let text = match toks with [] -> [] | t :: _ -> cps_of_field t in
+  let cmds = if pre then parse_pre_fix text else parse text in
+  String.concat "|" (List.map render_ucode cmds)
+
 let () =
   try
     while true do
@@ -155,6 +167,8 @@ let () =
         try
           match toks with
           | "num" :: rest -> handle_num rest
+          | "parse" :: rest -> handle_parse false rest
+          | "parsepre" :: rest -> handle_parse true rest
           | _ -> "bad:layer"
         with Bad m -> "bad:" ^ m | Stack_overflow -> "bad:stack" in
       print_string out; print_newline ()
